@@ -7,7 +7,7 @@ import ast
 from ..cfg import CFG
 from ..model import AnalysisError, chain, unparse
 from ..report import RuleResult
-from ._c11_sem import Facts, call_name, closer, cm_released_args, falsy_result, field_resets, handlers_around, node_calls, node_of, path_text, protected, reach3, resolve_callee, truthy_source
+from ._c11_sem import Facts, call_name, closer, cm_released_args, falsy_result, field_resets, handlers_around, node_calls, node_of, path_text, protected, reach3, resolve_callee, self_field_meaning, truthy_source
 
 
 def _is_h5py_file(p, mod, ch) -> bool:
@@ -185,7 +185,9 @@ def rule_pair(ctx) -> RuleResult:
     g = CFG(cl.node)
     plain = Facts(cl.node)
     is_handle = lambda e: plain.text(e) in handle_texts  # noqa: E731
-    closes = lambda n: any(isinstance(c.func, ast.Attribute) and c.func.attr == "close" and is_handle(c.func.value) for c in node_calls(n))  # noqa: E731
+    handle_cm = lambda e: is_handle(e) or (isinstance(e, ast.Call) and call_name(e) == "closing" and len(e.args) == 1 and is_handle(e.args[0]))  # noqa: E731
+    closes = lambda n: any(isinstance(c.func, ast.Attribute) and c.func.attr == "close" and is_handle(c.func.value) for c in node_calls(n)) or \
+        (n.kind == "withexit" and isinstance(n.stmt, (ast.With, ast.AsyncWith)) and any(handle_cm(it.context_expr) for it in n.stmt.items))  # noqa: E731
     # past the already-closed guard = under the assumption that the handle is there and open, however the guard is written
     is_open = Facts(cl.node, truthy=opened, notnone=opened)
     after = reach3(g, [g.entry], is_open, avoid=closes)
@@ -201,20 +203,61 @@ def rule_pair(ctx) -> RuleResult:
     res.inst("Workspace.close: the final save of the root subtree happens before File.close()", nontrivial=True, ok=ok)
     if not ok:
         res.find("Workspace", "close", "final save after (or without) File.close()", cl.where, "the last save runs on a closed handle or not at all")
-    # the writable-mode test, whatever its spelling (inline, through a local, negated, in a helper): a test of close() that
-    # comes out differently for handles in different modes
-    with_mode = lambda m: Facts(cl.node, truthy=opened, notnone=opened, value={f"{t}.mode": m for t in handle_texts})  # noqa: E731
+    # ... and on the exceptional path: when the final flush raises (I/O error, an entity that cannot be written) the handle is
+    # still released - the flush sits in a frame (try/finally, with) whose way out passes File.close()
+    flush_nodes = saves + [n for n in g.nodes if not is_save(n) and any(_is_concatenated_flush(c) for c in node_calls(n))]
+    ok = all(protected(g, n, closes) for n in flush_nodes)
+    res.inst("Workspace.close: File.close() also when the final flush raises", nontrivial=True, ok=ok or not flush_nodes)
+    if flush_nodes and not ok:
+        res.find("Workspace", "close", "File.close() is skipped when the final save raises", cl.where,
+                 "an exception raised by the final flush (device error, an entity that cannot be serialised) leaves close() before "
+                 "File.close(): the with-block is left, the HDF5 handle stays open and the file stays locked")
+    # the writable-mode test, whatever its spelling (inline, through a local, negated, in a helper, through a property or a
+    # flag of the workspace cached elsewhere): a test of close() that comes out differently for handles in different modes
+    ws_cls = ctx.p.cls("Workspace")
+    fields = {}
+    for n in g.nodes:
+        if n.kind == "test" and n.ast is not None:
+            tx = plain.x(n.ast)
+            called = {id(c.func) for c in ast.walk(tx) if isinstance(c, ast.Call)}
+            for a in ast.walk(tx):
+                if isinstance(a, ast.Call) and not a.args and not a.keywords and isinstance(a.func, ast.Attribute) and isinstance(a.func.value, ast.Name) and a.func.value.id == sn:
+                    key, name = f"{sn}.{a.func.attr}()", a.func.attr  # an argument-less method the normaliser left in place
+                elif isinstance(a, ast.Attribute) and id(a) not in called and isinstance(a.value, ast.Name) and a.value.id == sn and f"{sn}.{a.attr}" not in handle_texts:
+                    key, name = f"{sn}.{a.attr}", a.attr
+                else:
+                    continue
+                if key not in fields:
+                    m = self_field_meaning(ctx.p, ws_cls, name, sn)
+                    if m is not None:
+                        fields[key] = m[0]
+    with_mode = lambda m: Facts(cl.node, truthy=opened, notnone=opened, value={f"{t}.mode": m for t in handle_texts}, fields=fields)  # noqa: E731
     writable = with_mode("r+")  # what h5py reports for every file opened 'r+', 'a', 'w', 'x'
     others = [with_mode(m) for m in ("r", "a", "w")]
     mode_tests = [n for n in g.nodes if n.kind == "test" and n.ast is not None and any(writable.ev(n.ast) != o.ev(n.ast) for o in others)]
     if not mode_tests:
-        raise AnalysisError("Workspace.close: writable-mode test not found")
-    skipped = reach3(g, [g.entry], writable, avoid=is_save)
-    ok = not any(closes(n) for n in skipped)
-    res.inst("Workspace.close: on every writable path the final save happens before File.close()", nontrivial=True, ok=ok)
-    if not ok:
-        res.find("Workspace", "close", "the final save of the root subtree is conditional", cl.where,
-                 "operations completed before the close (entities created with save_on_creation=False, moved children) are not in the file for some workspaces")
+        # the tests the final save depends on (it is reachable through one branch only), other than the already-closed guard
+        def decides_save(t):
+            sides = [any(is_save(x) for x in reach3(g, [m], avoid=lambda x, t=t: x is t)) for m, l in t.succ if l in ("true", "false")]
+            return len(sides) == 2 and sides[0] != sides[1]
+
+        deciding = [n for n in g.nodes if n.kind == "test" and n.ast is not None and is_open.ev(n.ast) is None and decides_save(n)]
+        if not deciding:
+            raise AnalysisError("Workspace.close: writable-mode test not found")
+        res.inst("Workspace.close: the flush is decided by the mode of the handle being closed", nontrivial=True, ok=False)
+        res.find("Workspace", "close", "the writable test of close() does not read the mode of the handle", f"{cl.module.relpath}:{deciding[0].lineno}",
+                 "whether close() flushes is decided by a value that is not computed from the mode of the bound handle (open() can fall back to a "
+                 "read-only handle, the requested mode says nothing about it): on such a handle the final save runs against a read-only file and "
+                 "raises, File.close() is skipped and the HDF5 handle stays open; or pending operations of a writable handle are not flushed")
+    else:
+        res.inst("Workspace.close: the flush is decided by the mode of the handle being closed", nontrivial=True)
+    if mode_tests:
+        skipped = reach3(g, [g.entry], writable, avoid=is_save, normal_only=True)
+        ok = not any(closes(n) for n in skipped)
+        res.inst("Workspace.close: on every writable path the final save happens before File.close()", nontrivial=True, ok=ok)
+        if not ok:
+            res.find("Workspace", "close", "the final save of the root subtree is conditional", cl.where,
+                     "operations completed before the close (entities created with save_on_creation=False, moved children) are not in the file for some workspaces")
     # save_as: the source is closed (flushed) before its bytes are copied, wherever the copy is written (helper or inline)
     sa = ctx.view("Workspace.save_as")
     sn2 = sa.self_name or "self"
@@ -231,6 +274,12 @@ def rule_pair(ctx) -> RuleResult:
         res.find("Workspace", "save_as", "bytes are copied before the workspace is closed", sa.where,
                  "the copy is taken from an open, unflushed file: the saved file misses everything done since the source was last closed")
     return res
+
+
+def _is_concatenated_flush(c) -> bool:
+    """A call that persists the deferred attribute records of a drillhole group: it names the stored field
+    'concatenated_attributes' (`self.update_attribute(group, "concatenated_attributes")`, `group.save_attribute(..)`)."""
+    return any(isinstance(a, ast.Constant) and a.value == "concatenated_attributes" for a in list(c.args) + [k.value for k in c.keywords])
 
 
 def _is_final_save(c, facts) -> bool:
@@ -412,4 +461,59 @@ def rule_reopen(ctx) -> RuleResult:
     return res
 
 
-RULES = [rule_pair, rule_exit, rule_gate, rule_reopen]
+def _caller_assignable(cls, name) -> bool:
+    """`self.<name>` can be given any value by the users of the class: a public property with a setter, or a public plain
+    attribute (not a method, not a read-only property)."""
+    if name.startswith("_"):
+        return False
+    pr = cls.props.get(name)
+    if pr is not None:
+        return pr.setter is not None
+    m = cls.lookup(name)
+    return m is None
+
+
+def rule_flush(ctx) -> RuleResult:
+    res = RuleResult(
+        "C11.FLUSH",
+        "C11",
+        "every operation completed before the close is in the file: the write-back of the pending concatenated attribute records in "
+        "Workspace.close() does not depend on a value the users of the workspace can clear (a public setter): with every such "
+        "value cleared, the write-back is still reachable on the writable path",
+        floor=1,
+    )
+    cl = ctx.view("Workspace.close")
+    sn = cl.self_name or "self"
+    g = CFG(cl.node)
+    flushes = [n for n in g.nodes if any(_is_concatenated_flush(c) for c in node_calls(n))]
+    if not flushes:
+        res.inst("Workspace.close: no deferred write-back of concatenated attributes (nothing to decide)")
+        return res
+    ws_cls = ctx.p.cls("Workspace")
+    plain = Facts(cl.node)
+    handle_texts = (f"{sn}._geoh5", f"{sn}.geoh5")
+    switches = {}
+    for n in g.nodes:
+        if n.kind == "test" and n.ast is not None:
+            tx = plain.x(n.ast)
+            called = {id(c.func) for c in ast.walk(tx) if isinstance(c, ast.Call)}
+            for a in ast.walk(tx):
+                if isinstance(a, ast.Attribute) and id(a) not in called and isinstance(a.value, ast.Name) and a.value.id == sn and _caller_assignable(ws_cls, a.attr):
+                    switches[f"{sn}.{a.attr}"] = False
+    truthy = {t: True for t in handle_texts}
+    truthy.update(switches)
+    cleared = Facts(cl.node, truthy=truthy, notnone={t: True for t in handle_texts}, value={f"{t}.mode": "r+" for t in handle_texts})
+    live = reach3(g, [g.entry], cleared)
+    ok = any(n in live for n in flushes)
+    names = ", ".join(sorted(switches)) or "-"
+    res.inst(f"Workspace.close: write-back of concatenated attributes reachable with the caller-assignable values cleared ({names})", nontrivial=True, ok=ok)
+    if not ok:
+        res.find("Workspace", "close", "the write-back of pending concatenated attributes can be switched off through a public setter",
+                 f"{cl.module.relpath}:{flushes[0].lineno}",
+                 f"close() writes the pending attribute records of drillhole groups only while {names} is set, and any user of the workspace can "
+                 "clear it before the close (it is also the documented request to repack the file): the records of the drillholes created or "
+                 "edited in the session are then not in the file, which cannot be opened again")
+    return res
+
+
+RULES = [rule_pair, rule_exit, rule_gate, rule_reopen, rule_flush]
